@@ -690,7 +690,7 @@ Qed.
 
 Lemma ty_ok_spec env t v : ty_ok env t v = true <-> ty_sem re_match env t v.
 Proof.
-  destruct t as [k r l|sf r l|r|r l|r l|f e l|f64 l|r l|r l|l|od ts l|fl|l], v; cbn [ty_ok ty_sem];
+  destruct t as [k r l|sf r l|r|r l|r l|f e l|f64 fr l|r l|r l|tr l|od ts l|fl orl|orr l], v; cbn [ty_ok ty_sem];
     try tauto;
     try (destruct r as [r|]); try (destruct f as [f|]); try tauto;
     first [ apply int_rule_ok_spec | apply str_rule_ok_spec | apply within_spec | apply enum_ok_spec
@@ -715,7 +715,7 @@ Proof. destruct t; cbn; split; intro H; try discriminate; try tauto; try reflexi
 
 Lemma is_primary_ty_spec t : is_primary_ty t = true <-> primary_key t.
 Proof.
-  destruct t as [k r l|sf r l|r|r l|r l|f e l|f64 l|r l|r l|l|od ts l|fl|l]; cbn; try (split; [discriminate|tauto]).
+  destruct t as [k r l|sf r l|r|r l|r l|f e l|f64 fr l|r l|r l|tr l|od ts l|fl orl|orr l]; cbn; try (split; [discriminate|tauto]).
   destruct e as [[ty tn]|]; cbn; [|split; [discriminate|tauto]].
   destruct ty as [[[|]|p n]|]; split; intro H; try discriminate; try reflexivity; inversion H.
 Qed.
@@ -947,7 +947,7 @@ Lemma scalar_sem env t w v :
   item_ok (defined_numbers env) w v = ty_ok re_match env t v.
 Proof.
   intros Hwf Hw Hty. unfold item_ok.
-  destruct t as [k r l|sf r l|r|r l|r l|f e l|f64 l|r l|r l|l|od ts l|fl|l]; cbn [write_field] in Hw.
+  destruct t as [k r l|sf r l|r|r l|r l|f e l|f64 fr l|r l|r l|tr l|od ts l|fl orl|orr l]; cbn [write_field] in Hw.
   - (* integer *)
     apply obind_ok in Hw as [vo [Hv Hw]]. inversion Hw; subst w; clear Hw. cbn [fw_val].
     destruct v; try discriminate. destruct r as [r|].
@@ -991,13 +991,13 @@ Proof.
     + destruct s as [|c0 s0]; [reflexivity|]. rewrite andb_true_r. reflexivity.
     + rewrite andb_true_r. apply re_id62.
     + reflexivity.
+  - destruct fr; [discriminate|]. inversion Hw; subst w. destruct v; reflexivity.
   - inversion Hw; subst w. destruct v; reflexivity.
   - inversion Hw; subst w. destruct v; reflexivity.
+  - inversion Hw; subst w. destruct tr, v; reflexivity.
   - inversion Hw; subst w. destruct v; reflexivity.
-  - inversion Hw; subst w. destruct v; reflexivity.
-  - inversion Hw; subst w. destruct v; reflexivity.
-  - inversion Hw; subst w. destruct v; reflexivity.
-  - inversion Hw; subst w. destruct v; reflexivity.
+  - inversion Hw; subst w. destruct orl, v; reflexivity.
+  - inversion Hw; subst w. destruct orr, v; reflexivity.
 Qed.
 
 (* the patterns of the emitted constraint are those of the declaration (and the id62 pattern) *)
@@ -1009,7 +1009,7 @@ Lemma write_field_compiles env t w :
   end = fty_patterns_ok t.
 Proof.
   intro Hw.
-  destruct t as [k r l|sf r l|r|r l|r l|f e l|f64 l|r l|r l|l|od ts l|fl|l]; cbn [write_field] in Hw;
+  destruct t as [k r l|sf r l|r|r l|r l|f e l|f64 fr l|r l|r l|tr l|od ts l|fl orl|orr l]; cbn [write_field] in Hw; try (destruct fr; [discriminate Hw|]);
     try (apply obind_ok in Hw as [x [Hx Hw]]);
     inversion Hw; subst w; cbn [fw_val fty_patterns_ok]; try reflexivity.
   - destruct r as [r|].
@@ -1020,6 +1020,9 @@ Proof.
   - destruct r; reflexivity.
   - destruct r; reflexivity.
   - destruct f as [[|p| |]|]; cbn; try reflexivity. exact re_id62_ok.
+  - destruct tr; reflexivity.
+  - destruct orl; reflexivity.
+  - destruct orr; reflexivity.
 Qed.
 
 Lemma write_field_primary env t w :
@@ -1027,7 +1030,7 @@ Lemma write_field_primary env t w :
   match fw_key w with Some k => kx_primary k | None => false end = is_primary_ty t.
 Proof.
   intro Hw.
-  destruct t as [k r l|sf r l|r|r l|r l|f e l|f64 l|r l|r l|l|od ts l|fl|l]; cbn [write_field] in Hw;
+  destruct t as [k r l|sf r l|r|r l|r l|f e l|f64 fr l|r l|r l|tr l|od ts l|fl orl|orr l]; cbn [write_field] in Hw; try (destruct fr; [discriminate Hw|]);
     try (apply obind_ok in Hw as [x [Hx Hw]]);
     inversion Hw; subst w; cbn [fw_key is_primary_ty]; try reflexivity.
   destruct e as [[ty tn]|]; [|reflexivity]. cbn. destruct ty as [[[|]|]|]; reflexivity.
@@ -1037,31 +1040,29 @@ Lemma write_field_msg env t w :
   write_field env t = Ok w -> is_msg_kind (fw_kind w) = is_msg_ty t.
 Proof.
   intro Hw.
-  destruct t as [k r l|sf r l|r|r l|r l|f e l|f64 l|r l|r l|l|od ts l|fl|l]; cbn [write_field] in Hw;
+  destruct t as [k r l|sf r l|r|r l|r l|f e l|f64 fr l|r l|r l|tr l|od ts l|fl orl|orr l]; cbn [write_field] in Hw; try (destruct fr; [discriminate Hw|]);
     try (apply obind_ok in Hw as [x [Hx Hw]]);
     inversion Hw; subst w; cbn [fw_kind is_msg_ty]; try reflexivity.
   - destruct k; reflexivity.
   - destruct f64; reflexivity.
 Qed.
 
-(* message-typed fields carry no (buf.validate.field) type constraint *)
-Lemma write_field_msg_noval env t w :
-  write_field env t = Ok w -> is_msg_ty t = true -> fw_val w = None.
-Proof.
-  intros Hw Hm.
-  destruct t as [k r l|sf r l|r|r l|r l|f e l|f64 l|r l|r l|l|od ts l|fl|l]; try discriminate; cbn [write_field] in Hw;
-    inversion Hw; reflexivity.
-Qed.
-
 Lemma forallb_true {A} (l : list A) : forallb (fun _ => true) l = true.
 Proof. induction l; cbn; auto. Qed.
+
+(* a constraint without a type accepts every value *)
+Lemma forallb_empty defined (l : list value) : forallb (eval_scalar re_match defined CEmpty) l = true.
+Proof. induction l as [|v r IH]; [reflexivity|]. cbn [forallb]. rewrite IH. destruct v; reflexivity. Qed.
+Lemma forallb_empty_snd defined (l : list (str * value)) :
+  forallb (fun kv => eval_scalar re_match defined CEmpty (snd kv)) l = true.
+Proof. induction l as [|v r IH]; [reflexivity|]. cbn [forallb]. rewrite IH. destruct (snd v); reflexivity. Qed.
 
 (* buildField never sets required *)
 Lemma write_field_noreq env t w c :
   write_field env t = Ok w -> fw_val w = Some c -> c_req c = false.
 Proof.
   intros Hwt. revert c.
-  destruct t as [k r l|sf r l|r|r l|r l|f e l|f64 l|r l|r l|l|od ts l|fl|l]; cbn [write_field] in Hwt;
+  destruct t as [k r l|sf r l|r|r l|r l|f e l|f64 fr l|r l|r l|tr l|od ts l|fl orl|orr l]; cbn [write_field] in Hwt; try (destruct fr; [discriminate Hwt|]);
     try (apply obind_ok in Hwt as [x [Hx Hwt]]);
     try (destruct r; try discriminate);
     inversion Hwt; subst w; cbn [fw_val]; intros c Ev; try discriminate;
@@ -1070,6 +1071,9 @@ Proof.
     assert (Hc : c = C false (Some c0)) by congruence. rewrite Hc. reflexivity.
   - congruence.
   - destruct f as [[| | |]|]; inversion Ev; reflexivity.
+  - destruct tr; inversion Ev; reflexivity.
+  - destruct orl; inversion Ev; reflexivity.
+  - destruct orr; inversion Ev; reflexivity.
 Qed.
 
 (* the two-valued core on the writer's output decides the declared rules *)
@@ -1126,7 +1130,7 @@ Proof.
       * assert (opt = false) by (destruct opt; [discriminate|reflexivity]). subst opt.
         cbn [orb]. unfold set_required.
         destruct (is_msg_ty t) eqn:Em.
-        -- rewrite (write_field_msg_noval env t w Hwt Em) in *. cbn. exact Hs.
+        -- destruct (fw_val w) as [c|]; cbn [c_req c_ty andb negb orb] in *; exact Hs.
         -- cbn [negb andb orb]. destruct (is_zero v); cbn [negb andb].
            ++ destruct (fw_val w); reflexivity.
            ++ destruct (fw_val w) as [c|]; cbn [c_req c_ty andb] in *; exact Hs.
@@ -1158,10 +1162,10 @@ Proof.
     + (* items carry a constraint *)
       unfold only_ty.
       destruct req; cbn [set_required c_req c_ty andb negb];
-        destruct vs as [|v0 vr]; cbn [negb andb eval_tyc_b length];
+        destruct vs as [|v0 vr]; cbn [negb andb eval_tyc_b length item_tyc];
         destruct r as [r|]; cbn [opt_leN opt_geN andb];
         rewrite ?unique_scan_distinct; try reflexivity;
-        destruct (c_ty c); rewrite <- ?Hitems; cbn [forallb];
+        destruct (c_ty c); rewrite <- ?Hitems, ?forallb_empty; cbn [forallb];
         rewrite ?forallb_true; cbn [andb]; rewrite ?andb_true_r; reflexivity.
     + destruct r as [r|]; cbn [is_some].
       * unfold only_ty.
@@ -1197,10 +1201,10 @@ Proof.
     destruct (fw_val wi) as [c|] eqn:Ev; cbn [is_some orb].
     + unfold only_ty.
       destruct req; cbn [set_required c_req c_ty andb negb];
-        destruct kvs as [|kv0 kvr]; cbn [negb andb eval_tyc_b length];
+        destruct kvs as [|kv0 kvr]; cbn [negb andb eval_tyc_b length item_tyc];
         destruct r as [r|]; cbn [opt_leN opt_geN andb];
         try reflexivity;
-        destruct (c_ty c); rewrite <- ?Hitems; cbn [forallb];
+        destruct (c_ty c); rewrite <- ?Hitems, ?forallb_empty_snd; cbn [forallb];
         rewrite ?forallb_true; cbn [andb]; rewrite ?andb_true_r; reflexivity.
     + destruct r as [r|]; cbn [is_some].
       * unfold only_ty.
@@ -1251,12 +1255,12 @@ Proof.
   - rewrite <- (write_field_compiles env t w Hw). unfold val_ty. destruct (fw_val w); reflexivity.
   - apply obind_ok in Hw as [wi [Hwi Hw]]. inversion Hw; subst w; clear Hw.
     rewrite <- (write_field_compiles env t wi Hwi). cbn [wrap_array fw_val].
-    destruct (fw_val wi) as [c|]; cbn [is_some orb only_ty val_ty c_ty tyc_compiles].
+    destruct (fw_val wi) as [c|]; cbn [is_some orb only_ty val_ty c_ty tyc_compiles item_tyc].
     + destruct (c_ty c); reflexivity.
     + destruct r; reflexivity.
   - apply obind_ok in Hw as [wi [Hwi Hw]]. inversion Hw; subst w; clear Hw.
     rewrite <- (write_field_compiles env t wi Hwi). cbn [wrap_map fw_val].
-    destruct (fw_val wi) as [c|]; cbn [is_some orb only_ty val_ty c_ty tyc_compiles].
+    destruct (fw_val wi) as [c|]; cbn [is_some orb only_ty val_ty c_ty tyc_compiles item_tyc].
     + destruct (c_ty c); reflexivity.
     + destruct r; reflexivity.
 Qed.
@@ -1503,7 +1507,7 @@ Qed.
 
 (* witness 1: array of objects with uniqueItems = true, one item *)
 Definition w_unique_obj : prop :=
-  P [97%N] false false (PArray (Some (AR None None (Some true))) None (TObject false)) [].
+  P [97%N] false false (PArray (Some (AR None None (Some true))) None (TObject false None)) [].
 (* witness 2: a string whose pattern is "[" *)
 Definition w_bad_pattern : prop :=
   P [97%N] false false (PSingle (TStr None (Some (SR (Some [91%N]) None None)) None)) [].
